@@ -428,13 +428,26 @@ def _descent_applies(i):
 
 
 def _descent_neutral(i):
-    # sub-command names first (in their order), everything else after them
+    # the valid path of sub-command names first (children of the command reached so far), every
+    # other word after it; words that merely look like sub-command names are renamed
     o = copy.deepcopy(i)
+    cmds = (o.get("tree") or {}).get("cmds") or []
     names = _sub_names(o.get("tree") or {})
     ws, last = o["words"][:-1], o["words"][-1]
-    subs = [w for w in ws if w in names]
-    rest = [w for w in ws if w not in names]
-    o["words"] = subs + rest + [last]
+    cur, path, rest = 0, [], []
+    for w in ws:
+        child = None
+        for k, c in enumerate(cmds):
+            if c.get("parent") == cur and (c["name"] == w or w in (c.get("aliases") or [])):
+                child = k
+        if child is not None and w in names:
+            path.append(w)
+            cur = child
+        elif w in names:
+            rest.append("w" + w)
+        else:
+            rest.append(w)
+    o["words"] = path + rest + [last]
     return o
 
 
@@ -480,6 +493,10 @@ PARSE_CLASSES = [
     Class("shorthand_series_after_dash", ("C01",), ("parse",), _series_after_dash_applies, _series_after_dash_neutral,
           "after `--` a current word that looks like a shorthand series (`-- -c`) is still run through the pending-flag fix-up: a phantom `-` is added to the parsed words and the dash positional index is off by one"),
 ]
+
+BY = {c.id: c for c in PARSE_CLASSES}
+BY["subcommand_after_parent_flags"].codes = ("subcommand_",)
+BY["shorthand_series_after_dash"].codes = ("wrong_slot:dash",)
 
 CLASSES = CLASSES + ALG_CLASSES + SPLIT_CLASSES + CACHE_CLASSES + FILES_CLASSES + PARSE_CLASSES
 BY_ID = {c.id: c for c in CLASSES}
